@@ -26,7 +26,8 @@ pub const RUN_TIMEOUT_S: u64 = 60;
 pub enum RunEnd {
     Done(Outcome),
     HarnessPanic(String),
-    Hang,
+    /// what was in flight, wall-clock seconds, CPU seconds of this process during the run
+    Hang(String, u64, u64),
 }
 
 pub fn run_on_fresh_thread(prop: &'static dyn Prop, case: Value, env: Arc<WorkerEnv>) -> RunEnd {
@@ -35,6 +36,7 @@ pub fn run_on_fresh_thread(prop: &'static dyn Prop, case: Value, env: Arc<Worker
     let builder = std::thread::Builder::new().stack_size(8 << 20);
     let handle = builder.spawn(move || {
         entropy::seed_thread(seed);
+        sim::phase("harness: start of the run");
         sim::reset(None);
         let root = env.jail_root.to_string_lossy().to_string();
         sim::set_redact_prefix(if root == "/" { None } else { Some(root) });
@@ -45,6 +47,7 @@ pub fn run_on_fresh_thread(prop: &'static dyn Prop, case: Value, env: Arc<Worker
             Err(_) => RunEnd::HarnessPanic(sim::take_panic().unwrap_or_else(|| "?".to_string())),
         };
         sim::reset(None);
+        sim::phase("harness: between runs");
         let _ = tx.send(msg);
     });
     let handle = match handle {
@@ -67,7 +70,7 @@ pub fn run_on_fresh_thread(prop: &'static dyn Prop, case: Value, env: Arc<Worker
             Err(_) => {
                 let busy = process_cpu_seconds() - cpu0;
                 if busy >= RUN_BUSY_S as f64 || started.elapsed().as_secs() >= RUN_BLOCKED_S {
-                    return RunEnd::Hang;
+                    return RunEnd::Hang(sim::in_flight(), started.elapsed().as_secs(), busy as u64);
                 }
                 wait = Duration::from_secs(5);
             }
@@ -230,8 +233,8 @@ pub fn worker_main(prop: &'static dyn Prop, worker_id: usize, jail: Option<PathB
                             let _ = out.flush();
                             return 2;
                         }
-                        RunEnd::Hang => {
-                            let _ = writeln!(out, "T {}", json!({"i": i, "case": case}));
+                        RunEnd::Hang(what, wall, cpu) => {
+                            let _ = writeln!(out, "T {}", json!({"i": i, "case": case, "in_flight": what, "wall_s": wall, "cpu_s": cpu}));
                             let _ = out.flush();
                             // the stuck thread cannot be cancelled: this worker ends here
                             std::process::exit(3);
@@ -265,8 +268,8 @@ pub fn worker_main(prop: &'static dyn Prop, worker_id: usize, jail: Option<PathB
                         let _ = out.flush();
                         return 2;
                     }
-                    RunEnd::Hang => {
-                        let _ = writeln!(out, "T {}", json!({"i": id, "case": case}));
+                    RunEnd::Hang(what, wall, cpu) => {
+                        let _ = writeln!(out, "T {}", json!({"i": id, "case": case, "in_flight": what, "wall_s": wall, "cpu_s": cpu}));
                         let _ = out.flush();
                         std::process::exit(3);
                     }
